@@ -147,6 +147,7 @@ def run_property(ctx, module, vo, files, build_scripts, search, what, always=Non
     st = coq.proof_stage(ctx, module, vo, files)
     proofs_ok = finish_proof(ctx, st)
     scale = 1 if ctx.tier == 'quick' else int(os.environ.get('VERIF_THOROUGH_SCALE', '48'))
+    if getattr(ctx, 'changed', None) and ctx.tier == 'quick': scale = 6     # the sources differ from the validated ones: explore more (vlib/fingerprint.py)
     try:
         scripts = build_scripts(ctx, scale)
         mism = correspondence(ctx, scripts)
@@ -182,6 +183,15 @@ def run_property(ctx, module, vo, files, build_scripts, search, what, always=Non
                        {'stage': 'proof', 'theorem_file': st['bad_file'], 'coq_log': st['make_log'][-3000:], 'translation_errors': terr}))
     for m in mism[:50]:
         broken.append(('model and implementation disagree on: %s' % m['line'][:200], {'stage': 'correspondence', **m}))
+    if not broken and getattr(ctx, 'changed', None):
+        # nothing broke although the sources changed: still evaluate the property's own predicate on the implementation
+        fails = search(ctx, 2 * scale, [])
+        seen = set()
+        for desc, replay, key in fails:
+            k = json.dumps(key, sort_keys=True)
+            if k in seen: continue
+            seen.add(k); ctx.violation(desc, {'stage': 'search', 'source_files_changed': ctx.changed, **replay}, key, found_input=True)
+            if len(seen) >= 8: break
     if broken:
         # a tie is broken: is the PROPERTY violated?  search the implementation with the property's predicate
         fails = search(ctx, 10 * scale, mism)
